@@ -262,8 +262,21 @@ def cli_batch(stats, rnd, texts, width):
             return
         case = {"texts": [open(n).read() for n in names], "width": width}
         err = io.StringIO()
-        with contextlib.redirect_stderr(err), contextlib.redirect_stdout(io.StringIO()):
-            rc = format_main.main(["emboss-format", "--indent", str(width), "--color-output", "never"] + names)
+
+        def run_program(argv, out=None):
+            """The program never raises on parseable input: an exception escaping main() is a verdict."""
+            try:
+                with contextlib.redirect_stderr(err), contextlib.redirect_stdout(out or io.StringIO()):
+                    return format_main.main(argv), False
+            except BaseException as e:  # SystemExit included: main() returns its status
+                if isinstance(e, (KeyboardInterrupt, MemoryError)):
+                    raise
+                stats.fail(dict(kind="cli-raises", **emb.exc_signature()), case, "emboss-format %s raised\n%s" % (" ".join(os.path.basename(a) if a.endswith(".emb") else a for a in argv[1:]), traceback.format_exc()[-1500:]))
+                return None, True
+
+        rc, raised = run_program(["emboss-format", "--indent", str(width), "--color-output", "never"] + names)
+        if raised:
+            return
         stats.case([case["texts"], width, "cli"], len(names) >= 2, ["cli-multi-file", "files=%d" % len(names)], sample={"class": "cli-multi-file", "files": len(names), "width": width})
         for n in names:
             got = open(n).read()
@@ -271,15 +284,15 @@ def cli_batch(stats, rnd, texts, width):
                 whose = [os.path.basename(m) for m in names if expected[m] == got]
                 stats.fail({"kind": "cli-in-place-wrong-content", "holds": "another file's text" if whose else "something else"}, case, "after `emboss-format --indent %d %s`, %s does not hold the formatting of its own text%s (exit %r, stderr %r)" % (width, " ".join(os.path.basename(x) for x in names), os.path.basename(n), (" but that of " + ", ".join(whose)) if whose else "", rc, err.getvalue()[:300]))
                 return
-        with contextlib.redirect_stderr(io.StringIO()), contextlib.redirect_stdout(io.StringIO()):
-            format_main.main(["emboss-format", "--indent", str(width), "--color-output", "never"] + names)
+        if run_program(["emboss-format", "--indent", str(width), "--color-output", "never"] + names)[1]:
+            return
         for n in names:
             if open(n).read() != expected[n]:
                 stats.fail({"kind": "cli-second-run-changes-file"}, case, "a second emboss-format run changed %s" % os.path.basename(n))
                 return
         out = io.StringIO()
-        with contextlib.redirect_stdout(out), contextlib.redirect_stderr(io.StringIO()):
-            format_main.main(["emboss-format", "--no-edit-in-place", "--indent", str(width), "--color-output", "never", names[0]])
+        if run_program(["emboss-format", "--no-edit-in-place", "--indent", str(width), "--color-output", "never", names[0]], out)[1]:
+            return
         if out.getvalue() not in (expected[names[0]], expected[names[0]] + "\n"):
             stats.fail({"kind": "cli-stdout-differs"}, case, "--no-edit-in-place printed something other than the formatted text")
     finally:
